@@ -1,5 +1,5 @@
 # C04 - independence from input chunking and buffer alignment (also carries the C01 reader invariant)
-CLAIMS = {'reader_chunks': 'XMLReader refreshCharBuffer/xcodeMoreChars/refreshRawBuffer/handleEOL/getNextChar + two-byte decoder stub honouring the transcoder contract, window CHARBUF/RAWBUF via hook: '
+CLAIMS = {'reader_chunks3': 'as reader_chunks with a three-byte decoder stub: a character may need two further reads before it can be decoded (single-byte reads)', 'reader_chunks': 'XMLReader refreshCharBuffer/xcodeMoreChars/refreshRawBuffer/handleEOL/getNextChar + two-byte decoder stub honouring the transcoder contract, window CHARBUF/RAWBUF via hook: '
           'arbitrary chunking and low-water mark => characters, line/column, outcome equal decode+normalise of the whole byte string; invariant and memory safety at every step'}
 ASSUMPTIONS = ['hook: XMLReader instantiated with a small character/raw window (the code is parametric in these two constants)', 'stream contract: returns 1..max bytes while data remains, 0 at end', 'XML 1.0 character table, NEL recognition off']
 T10 = '_ZN11xercesc_4_010XMLChar1_019fgCharCharsTable1_0E'
@@ -9,6 +9,9 @@ HARNESSES = [
  dict(name='reader_chunks', entry='harness_reader_chunks', srcs=['C04/reader.cpp'], tus=TUS, const_tables=[T10, T11],
       defs={'quick': {'N': 6, 'XERCES_VERIF_CHARBUF': 2, 'XERCES_VERIF_RAWBUF': 4}, 'thorough': {'N': 8, 'XERCES_VERIF_CHARBUF': 3, 'XERCES_VERIF_RAWBUF': 6}},
       unwind={'quick': 5, 'thorough': 6}, unwind_gentle=True, unwind_cap=12, timeout={'quick': 900, 'thorough': 1700}, mem_gb=16),
+ dict(name='reader_chunks3', entry='harness_reader_chunks', srcs=['C04/reader.cpp'], tus=TUS, const_tables=[T10, T11],
+      defs={'quick': {'N': 9, 'UNIT': 3, 'XERCES_VERIF_CHARBUF': 2, 'XERCES_VERIF_RAWBUF': 4}, 'thorough': {'N': 9, 'UNIT': 3, 'XERCES_VERIF_CHARBUF': 2, 'XERCES_VERIF_RAWBUF': 5}},
+      unwind={'quick': 5, 'thorough': 6}, unwind_gentle=True, unwind_cap=12, timeout={'quick': 900, 'thorough': 2400}, mem_gb=16),
 ]
 LEVEL_TEXT = ('Bounded model checking (the real reader against a reference computed from the whole byte string) of the buffer-refill layer with the two-byte decoder stub honouring the transcoder contract: for ALL inputs of N bytes and ALL partitions of the '
               'byte stream into reads, with the refill points forced inside the input by a small window, the delivered characters, positions and outcome are identical and the reader invariant holds.')
